@@ -3,6 +3,8 @@
 // every iteration (hook H4), i.e. immediately before the phases that dereference them, the monitor checks list
 // indices, persistent ids, node couplings, face owners and face-type indices.
 #include "vh.hpp"
+#include <atomic>
+#include <chrono>
 #include "tissue.hpp"
 #include "verif_hooks.hpp"
 #include <set>
@@ -120,6 +122,10 @@ static tis::Scenario make_pop(Rng& g, int iterations, bool few_face_types_epithe
     return s;
 }
 
+static std::atomic<long> g_arrived{0};
+static void rendezvous(int tag, long) { if (tag != 21) return; const long n = ++g_arrived; const auto t0 = std::chrono::steady_clock::now();
+    if (n % 2 == 0) return;   // the second of a pair: its partner is waiting, both go on together
+    while (g_arrived.load() < n + 1 && std::chrono::steady_clock::now() - t0 < std::chrono::milliseconds(2)) { /* the first of a pair spins until its partner arrives */ } }
 static std::string run_one(const Args& a, long i) {
     Rng g(a.seed, (uint64_t)i, 0x08); Case c(i);
     const bool few = a.geti("few_face_types", 0) != 0;
@@ -128,6 +134,9 @@ static std::string run_one(const Args& a, long i) {
     g_limit = tis::extent_limit(s);
     Mon mon; mon.cutoff = s.P.contact_cutoff_adhesion_; g_mon = &mon; g_rng_base = hash_combine(a.seed, (uint64_t)i); g_ctr.clear();
     auto& S = verif::get(); S.rng_seed = rng_seed; S.phase = on_phase;
+    // several threads: the threads that complete a division in the same iteration meet just before they hand their daughters over (scheduling point 21): each waits
+    // up to 2 ms for a second one to arrive, so that the hand-over (ids, list updates) of two mothers really happens at the same time
+    S.sched_point = a.threads > 1 ? rendezvous : nullptr;
     std::string out = "pop_out_" + std::to_string(i) + "_" + std::to_string((long)getpid()); s.P.output_folder_path_ = out;
     long done = 0, cells0 = 0, cells1 = 0; std::string ended = "completed", what;
     try {
